@@ -163,6 +163,9 @@ class Dispatcher:
         value = pobj.datatype.import_value(value)
         # verify range
         value = pobj.datatype.validate(value, previous=pobj.value)
+        # the value must be complete now: a struct nested in an array or tuple may still lack
+        # members when there was no previous element to take them from
+        value = pobj.datatype(value)
         # note: exceptions are handled in handle_request, not here!
         getattr(moduleobj, 'write_' + pname)(value)
         # return value is ignored here, as already handled
